@@ -226,8 +226,28 @@ func (u *Universe) msgCase(out *bufio.Writer, ti *TypeInfo, v *Val, o buildOpts)
 	} else {
 		flags = append(flags, "c08r=bad")
 	}
+	// C06, last clause: "the same message always yields the same bytes" - a second Marshal of the same value, through a
+	// recycled buffer whose spare capacity holds stale non-zero bytes, gives the same bytes (map-free types: map order may differ)
+	sameBytes := true
+	if !ti.S.hasMap(ti.MI) {
+		dirty := bytes.Repeat([]byte{0xbb, 0x01}, len(data)/2+40)
+		func() {
+			defer func() {
+				if recover() != nil {
+					sameBytes = false
+				}
+			}()
+			again, err := picobuf.MarshalBuffer(m, dirty)
+			if err != nil || !bytes.Equal(again, data) {
+				sameBytes = false
+				detail = append(detail, "marshal-into-recycled-buffer="+hex.EncodeToString(again))
+			}
+		}()
+	}
 	// C06: bytes equal the deterministic serialisation of the message they denote
-	if want.String() != wantQ.String() {
+	if !sameBytes {
+		flags = append(flags, "c06=bad")
+	} else if want.String() != wantQ.String() {
 		flags = append(flags, "c06=na") // float32 signalling NaN: not representable in the reference reflection API
 	} else if !ti.S.hasMap(ti.MI) {
 		re, err := u.oracleRemarshal(ti, data)
@@ -358,10 +378,11 @@ func skeleton(v *Val) string {
 			fmt.Fprintf(&b, "(p%d)", len(v.L)/2)
 		case 'm', 'e':
 			if v.T == 'm' && !v.Some {
-				b.WriteString("(m)")
+				b.WriteString("(nil)")
 				return
 			}
-			b.WriteByte('(')
+			// a present message of a field-less type must not look like a nil one
+			b.WriteString("(present-")
 			b.WriteByte(v.T)
 			for _, e := range v.L {
 				b.WriteByte(' ')
